@@ -118,3 +118,41 @@ def lazy_selection(build, rows, rng, filler):
     big = [rows[i] for i in order] + [filler() for _ in range(rng.randint(0, 2))]
     pos = {orig: p for p, orig in enumerate(order)}
     return build(big)[np.array([pos[i] for i in range(n)], dtype=int)], "fancy"
+
+
+def process_history_prelude(rng):
+    """Ordinary use of OTHER parts of the library before a workload starts: a real process has usually done something else first, and module-level
+    caches, memoised classes and class attributes filled by those calls must not change what the functions under observation return.
+    Nothing here is judged; every call is a legitimate public-API use, errors are ignored.  Returns the number of calls made."""
+    import numpy as np
+    import bionumpy as bnp
+    from bionumpy.encodings import alphabet_encoding as ae
+    n = 0
+
+    def call(fn):
+        nonlocal n
+        try:
+            fn()
+            n += 1
+        except Exception:
+            pass
+    reads = {"ACGTn": (["ACGTNNAC", "TTGNA", "ACGTA"], ae.ACGTnEncoding), "amino": (["ACDEFGHIK", "LMNPQ", "RSTVWY"], ae.AminoAcidEncoding), "rna": (["ACUGGU", "UUGCA"], ae.ACUGEncoding),
+             "dna": (["ACGTAC", "GGTCA"], ae.ACGTEncoding), "custom3": (["ABCABC", "CCBA"], ae.AlphabetEncoding("ABC"))}
+    items = list(reads.items())
+    rng.shuffle(items)
+    for name, (rows, enc) in items:
+        x = bnp.as_encoded_array(rows, enc)
+        for k in rng.sample([1, 2, 3, 4, 5], 3):
+            call(lambda: bnp.get_kmers(x, k).tolist())
+            call(lambda: bnp.sequence.count_kmers(x, min(k, 3)).counts)
+        call(lambda: bnp.get_minimizers(x, 2, 3))
+        call(lambda: bnp.match_string(x, rows[0][:2]))
+    call(lambda: bnp.sequence.translate_dna_to_protein(bnp.as_encoded_array(["ATGGCCTAA", "TTT"])).tolist())
+    call(lambda: bnp.sequence.get_reverse_complement(bnp.as_encoded_array(["ACGTN", "gg"])).tolist())
+    for sizes in ({"chr1": 10, "chr2": 7}, {"chr1": 33, "chr2": 5, "chr1_alt": 9}, {"a": 4}, {"chr2": 8, "chr1": 12}):
+        call(lambda: bnp.Genome.from_dict(sizes).get_intervals(bnp.datatypes.Interval([list(sizes)[0]], [0], [2])).get_mask().to_dict())
+    call(lambda: bnp.bnpdataclass.make_dataclass([("c0", int), ("c1", str)])([1, 2], ["a", "b"]).tolist())
+    call(lambda: bnp.bnpdataclass.make_dataclass([("c0", str), ("c1", float)])(["x"], [1.5]).tolist())
+    call(lambda: bnp.io.strops.str_to_float(bnp.as_encoded_array(["1.5", "2e3", "-.5"])))
+    call(lambda: bnp.io.strops.ints_to_strings(np.array([0, -10, 999])).tolist())
+    return n
